@@ -3,8 +3,9 @@
 and asks for changes that are as hard to expose as a realistic slip can be. Output dir: /tmp/seed2-<id>-out, worktree /tmp/seed2-<id>."""
 import json, sys, subprocess, glob, os
 pid = sys.argv[1]
+rnd = sys.argv[2] if len(sys.argv) > 2 else "2"
 base = subprocess.run([sys.executable, os.path.join(os.path.dirname(__file__), "seed_prompt.py"), pid, "2"], capture_output=True, text=True).stdout
-base = base.replace(f"/tmp/seed-{pid}", f"/tmp/seed2-{pid}")
+base = base.replace(f"/tmp/seed-{pid}", f"/tmp/seed{rnd}-{pid}")
 prev = []
 try:
     for m in json.load(open(f"/tmp/seed-{pid}-out/meta.json")):
@@ -13,7 +14,7 @@ except Exception:
     pass
 extra = f"""
 
-ROUND 2 — additional requirements. An earlier round already produced the following changes for this property; do NOT repeat them or close variants of them, pick different code sites and different trigger conditions:
+ROUND {rnd} — additional requirements. Earlier rounds already produced the following changes for this property; do NOT repeat them or close variants of them, pick different code sites and different trigger conditions:
 {chr(10).join(prev) if prev else '- (none recorded)'}
 
 This time make each change as hard to expose as a realistic slip can be, while still being a genuine violation of the property as stated:
